@@ -5,7 +5,7 @@
    quantify over all such histories.  Model.v mirrors lib/coroutine.nelua and the C functions
    of lib/detail/minicoro.nelua. *)
 From Coq Require Import List Arith ZArith Bool String.
-From C18 Require Import Gen Model ProofsStorage ProofsInv ProofsErr ProofsTrans Proofs.
+From C18 Require Import Gen Model ProofsStorage ProofsInv ProofsErr ProofsTrans ProofsFuel ProofsValues Proofs.
 Import ListNotations.
 Local Open Scope list_scope.
 
@@ -42,18 +42,25 @@ Proof. exact storage_within_capacity. Qed.
 Print Assumptions C18_storage_within_capacity.
 
 (* every command moves every coroutine along the documented state machine [tr]; a coroutine
-   object disappears only by a destroy of that very coroutine *)
+   object disappears only by a destroy (or the <close> of a handle) of that very coroutine *)
 Theorem C18_state_machine : forall gc ops o j,
   tr (stof (reach gc ops) j) (stof (fst (step o (reach gc ops))) j) /\
-  (stof (fst (step o (reach gc ops))) j = None -> stof (reach gc ops) j <> None -> o = ODestroy j).
+  (stof (fst (step o (reach gc ops))) j = None -> stof (reach gc ops) j <> None -> o = ODestroy j \/ o = OClose j).
 Proof. exact state_machine. Qed.
 Print Assumptions C18_state_machine.
 
 Theorem C18_dead_is_absorbing : forall gc ops o j, stof (reach gc ops) j = Some Dead ->
   stof (fst (step o (reach gc ops))) j = Some Dead \/
-  (stof (fst (step o (reach gc ops))) j = None /\ o = ODestroy j).
+  (stof (fst (step o (reach gc ops))) j = None /\ (o = ODestroy j \/ o = OClose j)).
 Proof. exact dead_is_absorbing. Qed.
 Print Assumptions C18_dead_is_absorbing.
+
+(* the prev chain is finite and ends in the main program: the end-of-script unwinding of the
+   model (fuel = number of coroutine objects + 1) never runs out of fuel *)
+Theorem C18_end_unwinds : forall gc ops rets n,
+  no_fuel_line (snd (step (OEnd rets n) (reach gc ops))).
+Proof. exact end_unwinds. Qed.
+Print Assumptions C18_end_unwinds.
 
 (* LIFO bytes: a pop after a push returns the same bytes and restores the coroutine record *)
 Theorem C18_storage_lifo : forall gc ops k c b c1, get k (cos (reach gc ops)) = Some c ->
@@ -75,6 +82,43 @@ Theorem C18_push_rollback : forall gc ops k vs e s',
   co_push k vs (reach gc ops) = (CErr e, s') -> s' = reach gc ops.
 Proof. exact push_rollback_all. Qed.
 Print Assumptions C18_push_rollback.
+
+(* values pushed on one side of a switch are popped on the other side in order and unmodified:
+   resume(co, v1..vn) -> coroutine.pop in co;  yield(v1..vn) -> coroutine.pop by the resumer *)
+Theorem C18_resume_delivers_values : forall gc ops k c vals s1, let s := reach gc ops in
+  get k (cos s) = Some c -> co_resume k vals s = (COk, s1) ->
+  current s1 = Some k /\
+  exists c1, get k (cos s1) = Some c1 /\
+    co_pop k (map (@List.length Z) vals) s1 = (COk, vals, with_st s1 k c1 (storage c)).
+Proof. exact resume_delivers_all. Qed.
+Print Assumptions C18_resume_delivers_values.
+
+Theorem C18_yield_delivers_values : forall gc ops k c vals s1, let s := reach gc ops in
+  current s = Some k -> get k (cos s) = Some c -> co_yield vals s = (COk, s1) ->
+  current s1 = co_prev c /\
+  exists c1, get k (cos s1) = Some c1 /\ co_st c1 = Suspended /\
+    co_pop k (map (@List.length Z) vals) s1 = (COk, vals, with_st s1 k c1 (storage c)).
+Proof. exact yield_delivers_all. Qed.
+Print Assumptions C18_yield_delivers_values.
+
+(* the typed wrapper of coroutine.create: the body function receives exactly the values given to the
+   first resume (popped last argument first), and what it returns is what the resumer pops *)
+Theorem C18_body_receives_arguments : forall gc ops k c vals s1, let s := reach gc ops in
+  get k (cos s) = Some c -> co_started c = false -> co_argsz c = map (@List.length Z) vals ->
+  co_resume k vals s = (COk, s1) ->
+  exists s2 c2, start_body k s1 = (COk, vals, s2) /\ get k (cos s2) = Some c2 /\ storage c2 = storage c /\
+                arrive k s1 = (s2, [mkLine (Some k) 0 "start" (map FV vals)]).
+Proof. exact body_receives_arguments_all. Qed.
+Print Assumptions C18_body_receives_arguments.
+
+Theorem C18_body_return_delivers_values : forall gc ops k c rets s1, let s := reach gc ops in
+  current s = Some k -> get k (cos s) = Some c -> co_hasret c = true ->
+  finish_body k rets s = (COk, s1) ->
+  current s1 = co_prev c /\
+  exists c1, get k (cos s1) = Some c1 /\ co_st c1 = Dead /\
+    co_pop k (map (@List.length Z) rets) s1 = (COk, rets, with_st s1 k c1 (storage c)).
+Proof. exact body_return_delivers_all. Qed.
+Print Assumptions C18_body_return_delivers_values.
 
 (* invalid transitions return the documented error and leave the whole state unchanged *)
 Theorem C18_invalid_transitions : forall gc ops, let s := reach gc ops in
